@@ -474,7 +474,29 @@ func c13MatchLevel(c *vkit.Ctx) {
 				return
 			}
 			m := vkit.Mode{CI: r.IntN(2) == 0}
+			tornTail := !opA.standalone() && r.IntN(5) == 0
+			if tornTail {
+				// the file ends in a half-written entry of another test (an interrupted append):
+				// that test's lookup finds the id line, collects lines and runs into the end of
+				// the file - rejected, on CI nothing is written - and then the judged call runs
+				m = vkit.Mode{CI: true}
+				f, err := os.OpenFile(s.MultiPath(opA), os.O_APPEND|os.O_WRONLY, 0o644)
+				if err == nil {
+					f.WriteString("\n[TestTail - 1]\ntail line one\ntail line two\ntail line three")
+					f.Close()
+				}
+			}
 			s.NewProcess(m, true)
+			if tornTail {
+				tt := vkit.NewT("TestTail")
+				s.config(opA).MatchSnapshot(tt, "tail line one\ntail line two\ntail line three")
+				if got := vkit.Classify(tt.Take()); got != vkit.Failed {
+					c.Violate("match-level-torn-tail-lookup", "", "the lookup of a half-written last entry on CI gave "+got, in)
+					return
+				}
+				tt.Finish()
+				c.Count("match_level_reports_after_a_rejected_lookup_of_a_half_written_entry", 1)
+			}
 			t = vkit.NewT("TestReport")
 			res = s.Step(t, opB, m)
 			s.EndExec(t)
